@@ -95,7 +95,8 @@ def discharge(ctx, ob, timeout_ms=10000, use_cvc5=False):
                 res.update(status="refuted", backend="cvc5", model={"<cvc5>": "sat (model not extracted)"})
         res["time"] = time.time() - t0
     if use_cvc5 and res["status"] == "proved" and res["backend"].startswith("z3"):
-        c = cvc5_check(s, timeout_ms)
+        # cross-check of an already discharged obligation by the second solver: informational, short budget
+        c = cvc5_check(s, min(timeout_ms, 10000))
         res["cvc5"] = c
     if ob.kind == "canary":
         # a canary must NOT be provable
